@@ -10,6 +10,7 @@
 #include <atomic>
 #include <mutex>
 #include <map>
+#include <memory>
 #include <vector>
 #include <algorithm>
 #include <sys/socket.h>
@@ -36,10 +37,15 @@ struct Plan
 	jm::JV json;
 	std::vector<std::string> streamChunks;
 	int rangeB, rangeE;   // -1 = no range
-	Plan() : kind(K_FIXED), code(200), rangeB(-1), rangeE(-1) {}
+	int redirect;         // 0 = none, else 301/302/307/308: the first answer redirects to `target2`, the final handler sees path2
+	std::string target2, path2;
+	int bodyForm;         // how the library client is given the request body: 0 ByteArray, 1 String, 2 File, 3 Var (JSON)
+	std::string bodyFile;
+	std::shared_ptr<jm::JV> bodyTree;   // body form 3: the tree the client turns into a Var
+	Plan() : kind(K_FIXED), code(200), rangeB(-1), rangeE(-1), redirect(0), bodyForm(0) {}
 };
 
-struct Seen { std::string method, path, body; std::map<std::string, std::string> query, headers; int count; Seen() : count(0) {} };
+struct Seen { std::string method, path, body; std::map<std::string, std::string> query, headers; int count, hops; Seen() : count(0), hops(0) {} };
 
 static std::mutex g_mu;
 static std::map<std::string, Plan> g_plans;
@@ -60,6 +66,14 @@ struct Srv : public HttpServer
 			std::map<std::string, Plan>::iterator it = g_plans.find(id);
 			if (it != g_plans.end()) { p = it->second; known = true; }
 			Seen& s = g_seen[id];
+			if (known && p.redirect && std::string(*req.path(), req.path().length()) != p.path2) {
+				// first hop of a redirected exchange: answer with the redirect and record nothing but the hop
+				s.hops++;
+				res.setCode(p.redirect);
+				res.setHeader("Location", (std::string("http://127.0.0.1:") + std::to_string(_sockets[0].localAddress().port()) + p.target2).c_str());
+				res.put("moved");
+				return;
+			}
 			s.count++;
 			s.method = *req.method();
 			s.path = std::string(*req.path(), req.path().length());
@@ -215,6 +229,9 @@ static std::string doLibRequest(const Plan& p, const std::string& id, int& code,
 	int form = (int)(vf::fnv(id) % 3);
 	if (p.method == "GET") res = Http::get(url, headers);
 	else if (p.method == "DELETE") res = Http::delet(url, headers);
+	else if (p.bodyForm == 1) { String sb(p.reqBody.c_str(), (int)p.reqBody.size()); res = p.method == "POST" ? Http::post(url, sb, headers) : p.method == "PUT" ? Http::put(url, sb, headers) : Http::patch(url, sb, headers); }
+	else if (p.bodyForm == 2) { File fb(p.bodyFile.c_str()); res = p.method == "POST" ? Http::post(url, fb, headers) : p.method == "PUT" ? Http::put(url, fb, headers) : Http::patch(url, fb, headers); }
+	else if (p.bodyForm == 3) { Var vb = jm::toVar(*p.bodyTree); res = p.method == "POST" ? Http::post(url, vb, headers) : p.method == "PUT" ? Http::put(url, vb, headers) : Http::patch(url, vb, headers); }
 	else if (p.method == "POST") { if (form == 0) res = Http::post(url, ba, headers); else { HttpRequest rq("POST", url, ba, headers); res = Http::request(rq); } }
 	else if (p.method == "PUT") res = Http::put(url, ba, headers);
 	else res = Http::patch(url, ba, headers);
@@ -237,8 +254,10 @@ static void judge(vf::Ctx& c, const Plan& p, const std::string& id, int code, co
 	{ std::lock_guard<std::mutex> l(g_mu); s = g_seen[id]; }
 	if (s.count != 1) c.fail("request-not-handled-exactly-once", at + vf::fmt("handler ran %d times; client error '%s', code %d", s.count, sockerr.c_str(), code));
 	if (s.method != p.method) c.fail("handler.method", at + s.method);
-	if (s.path != p.path) c.fail("handler.path", at + "'" + vf::vis(s.path) + "' vs '" + vf::vis(p.path) + "'");
-	if (s.query != p.query) {
+	const std::string& wantPath = p.redirect ? p.path2 : p.path;
+	if (s.path != wantPath) c.fail("handler.path", at + "'" + vf::vis(s.path) + "' vs '" + vf::vis(wantPath) + "'");
+	if (p.redirect && s.hops != 1) c.fail("redirect.first-hop-count", at + vf::fmt("%d", s.hops));
+	if (!p.redirect && s.query != p.query) {
 		std::string d;
 		for (auto& kv : p.query) { auto it = s.query.find(kv.first); if (it == s.query.end()) d += " missing " + kv.first; else if (it->second != kv.second) d += " " + kv.first + "='" + vf::vis(it->second) + "' vs '" + vf::vis(kv.second) + "'"; }
 		c.fail("handler.query", at + vf::fmt("%d vs %d values;", (int)s.query.size(), (int)p.query.size()) + d);
@@ -251,7 +270,7 @@ static void judge(vf::Ctx& c, const Plan& p, const std::string& id, int code, co
 	if (s.body != p.reqBody) {
 		size_t k = 0;
 		while (k < s.body.size() && k < p.reqBody.size() && s.body[k] == p.reqBody[k]) k++;
-		c.fail("handler.body", at + vf::fmt("handler saw %d bytes, %d sent, first difference at %d", (int)s.body.size(), (int)p.reqBody.size(), (int)k));
+		c.fail(p.redirect ? "handler.body.after-redirect" : p.bodyForm == 2 ? "handler.body.file" : "handler.body", at + vf::fmt("handler saw %d bytes, %d sent, first difference at %d (body form %d)", (int)s.body.size(), (int)p.reqBody.size(), (int)k, p.bodyForm));
 	}
 	// client side
 	int wantCode = p.code;
@@ -298,6 +317,19 @@ static void runLib(vf::Ctx& c, int nreq, int nthreads, int forceKind)
 		genRequestSide(c.rng, plans[i], ids[i]);
 		genResponseSide(c.rng, plans[i], forceKind);
 		prepFile(plans[i], ids[i]);
+		if (plans[i].reqBody.size() && forceKind != K_STREAM) {
+			Plan& p = plans[i];
+			int bf = c.rng.below(6);
+			if (bf == 1) { for (auto& ch : p.reqBody) if (!ch) ch = ' '; p.bodyForm = 1; if (p.kind == K_ECHO) p.resBody = p.reqBody; }
+			else if (bf == 2) { p.bodyForm = 2; p.bodyFile = g_scratch + "/b_" + ids[i] + ".bin"; FILE* f = fopen(p.bodyFile.c_str(), "wb"); if (f) { fwrite(p.reqBody.data(), 1, p.reqBody.size(), f); fclose(f); } }
+			else if (bf == 3) { jm::TreeOpt o; o.maxdepth = 3; o.budget = 40; jm::JV t = jm::randTree(c.rng, o); if (t.k != jm::JV::A && t.k != jm::JV::O) { jm::JV a = jm::JV::mk(jm::JV::A); a.a.push_back(t); t = a; } p.bodyTree = std::make_shared<jm::JV>(t); asl::String e = Json::encode(jm::toVar(t)); p.reqBody = std::string(*e, e.length()); p.bodyForm = 3; if (p.kind == K_ECHO) p.resBody = p.reqBody; }
+		}
+		if (c.rng.chance(0.12) && plans[i].kind != K_FILE && forceKind < 0) {
+			static const int rc[] = {301, 302, 307, 308};
+			plans[i].redirect = rc[c.rng.below(4)];
+			plans[i].path2 = "/final/" + token(c.rng, 6);
+			plans[i].target2 = plans[i].path2;
+		}
 		if (plans[i].kind == K_FILE && c.rng.chance(0.4) && plans[i].resBody.size() >= 2) {
 			int n = (int)plans[i].resBody.size();
 			plans[i].rangeB = c.rng.range(0, n - 2);
@@ -320,7 +352,10 @@ static void runLib(vf::Ctx& c, int nreq, int nthreads, int forceKind)
 	for (int i = 0; i < nreq; i++) {
 		judge(c, plans[i], ids[i], codes[i], bodies[i], hdrs[i], errs[i], "lib-client", plans[i].kind == K_JSON ? &jsons[i] : 0);
 		if (plans[i].file.size()) unlink(plans[i].file.c_str());
+		if (plans[i].bodyFile.size()) unlink(plans[i].bodyFile.c_str());
 		c.count(vf::fmt("kind_%d", (int)plans[i].kind).c_str());
+		c.count(vf::fmt("request_body_form_%d", plans[i].bodyForm).c_str());
+		if (plans[i].redirect) c.count("redirected_exchanges");
 		c.distinct(vf::fnv(plans[i].target + plans[i].reqBody.substr(0, 64) + plans[i].resBody.substr(0, 64), plans[i].reqBody.size() * 1000003 + plans[i].resBody.size()));
 	}
 	{ std::lock_guard<std::mutex> l(g_mu); for (int i = 0; i < nreq; i++) { g_plans.erase(ids[i]); g_seen.erase(ids[i]); } }
@@ -468,10 +503,13 @@ static void mode_raw(vf::Ctx& c)
 		ids[i] = newId(c, i);
 		Plan& p = plans[i];
 		genRequestSide(c.rng, p, ids[i]);
-		int kinds[] = {K_FIXED, K_TEXT, K_ECHO, K_FIXED};
-		genResponseSide(c.rng, p, kinds[c.rng.below(4)]);
+		int kinds[] = {K_FIXED, K_TEXT, K_ECHO, K_FILE, K_FILE};
+		genResponseSide(c.rng, p, kinds[c.rng.below(5)]);
+		prepFile(p, ids[i]);
+		if (p.kind == K_FILE && p.resBody.size() >= 3 && c.rng.chance(0.7)) { int n = (int)p.resBody.size(); p.rangeB = c.rng.range(0, n - 2); p.rangeE = c.rng.range(p.rangeB + 1, n - 1); if (c.rng.chance(0.5) && p.rangeE == n - 1 && n > 3) p.rangeE = n - 2; }
 		std::string req = p.method + " " + p.target + " HTTP/1.1\r\nHost: 127.0.0.1\r\n";
 		for (auto& h : p.reqHeaders) req += h.first + (c.rng.chance(0.3) ? ":" : ": ") + h.second + "\r\n";
+		if (p.rangeB >= 0) req += vf::fmt("Range: bytes=%d-%d\r\n", p.rangeB, p.rangeE);
 		if (i + 1 < k && c.rng.chance(0.5)) req += "Connection: keep-alive\r\n";
 		if (i + 1 == k) req += "Connection: close\r\n";
 		if (p.reqBody.size() && c.rng.chance(0.5)) {
@@ -516,10 +554,13 @@ static void mode_raw(vf::Ctx& c)
 		if (!parseResponse(resp, roff, rr)) { { std::lock_guard<std::mutex> l(g_mu); for (int j = 0; j < k; j++) g_plans.erase(ids[j]); } c.fail("raw.response-missing-or-unparseable", vf::fmt("response %d of %d; received %d bytes: ", i + 1, k, (int)resp.size()) + vf::vis(resp.substr(roff, 200))); }
 		std::map<std::string, std::string> hdrs;
 		for (auto& h : plans[i].resHeaders) { std::string lk = h.first; for (auto& ch : lk) ch = (char)tolower(ch); auto it = rr.headers.find(lk); if (it != rr.headers.end()) hdrs[h.first] = it->second; }
+		if (rr.headers.count("content-range")) hdrs["Content-Range"] = rr.headers["content-range"];
+		if (plans[i].file.size()) unlink(plans[i].file.c_str());
 		judge(c, plans[i], ids[i], rr.code, rr.body, hdrs, "", "raw-client");
 		c.distinct(vf::fnv(plans[i].target + plans[i].reqBody.substr(0, 64), plans[i].reqBody.size()));
 	}
 	{ std::lock_guard<std::mutex> l(g_mu); for (int i = 0; i < k; i++) { g_plans.erase(ids[i]); g_seen.erase(ids[i]); } }
+	if (roff != resp.size()) c.fail("raw.bytes-after-last-response", vf::fmt("%d bytes follow the %d announced responses: ", (int)(resp.size() - roff), k) + vf::vis(resp.substr(roff, 80)));
 	c.evals(k - 1);
 	if (c.want_sample()) c.sample(vf::vis(stream, 300));
 }
